@@ -202,3 +202,8 @@ def rename_genes(model: "Model", rename_dict: Dict[str, str]) -> None:
         if context:
             context(partial(model.genes.add, i))
             context(partial(setattr, i, "_model", model))
+        # remove reference to the gene in all groups
+        for group in model.get_associated_groups(i):
+            group.remove_members([i])
+            if context:
+                context(partial(group.add_members, [i]))
